@@ -4,7 +4,7 @@ from __future__ import annotations
 import ast
 from typing import Dict, List, Optional, Set
 
-from .. import wire
+from .. import wire, paths
 from ..model import norm_text, AnchorMissing, FuncInfo
 from ..controls import Control
 from ..mutate import in_func
@@ -33,24 +33,41 @@ def flip_unit(ctx, p, key: str, data_param: Optional[str]) -> Optional[int]:
     rev = [n for n in f.body_nodes() if isinstance(n, ast.Subscript) and "::-1" in norm_text(n.slice)]
     if not flips and not rev:
         return 0
-    rets = wire.returns_of(f)
-    ok = len(flips) == 1 and not rev and norm_text(flips[0].func).endswith("flipud")
-    det = f"{len(flips)} flip call(s), {len(rev)} reversed slices"
-    if ok:
-        br = wire.enclosing_branches(f, flips[0])
-        ok = len(br) == 1 and br[0][1] and _is_conf_key(br[0][0].test, f)
-        det = f"flipud under {[(norm_text(i.test), t) for i, t in br]}"
-        # the flipped and the unflipped value are the two return alternatives
-        ok = ok and len(rets) == 2
-        if ok:
-            flipped_ret = [r for r in rets if any(x is flips[0] for x in ast.walk(r))]
-            plain_ret = [r for r in rets if r not in flipped_ret]
-            ok = len(flipped_ret) == 1 and len(plain_ret) == 1
-            if ok:
-                a = norm_text(flipped_ret[0].value).replace(norm_text(flips[0]), norm_text(flips[0].args[0]))
-                ok = a == norm_text(plain_ret[0].value)
-                det += f"; returns {norm_text(flipped_ret[0].value)[:70]} / {norm_text(plain_ret[0].value)[:70]}"
-    ctx.ob(rule, key, ok, where=f, node=flips[0] if flips else f.node, construct=det,
+    # decided on the name-free path summaries (sa/paths.py; new helpers such as a `_flip_for_ds9()` predicate are looked into): on every returning path the value carries
+    # exactly one np.flipud when the DS9 key holds and none when it does not, and the two values differ in nothing else
+    PS = paths.path_summaries(f, project=p)
+    rets = paths.returns(PS) if PS is not None else []
+
+    def n_flips(v):
+        good = [c for c in ast.walk(v) if isinstance(c, ast.Call) and norm_text(c.func) in ("np.flipud", "numpy.flipud")]
+        bad = [c for c in ast.walk(v) if (isinstance(c, ast.Call) and norm_text(c.func) in ("np.flip", "numpy.flip", "np.fliplr", "numpy.fliplr")) or (isinstance(c, ast.Subscript) and "::-1" in norm_text(c.slice))]
+        return len(good), len(bad)
+
+    class Unflip(ast.NodeTransformer):
+        def visit_Call(self, n):
+            self.generic_visit(n)
+            if norm_text(n.func) in ("np.flipud", "numpy.flipud") and len(n.args) == 1 and not n.keywords:
+                return n.args[0]
+            return n
+    ok = bool(rets)
+    det = []
+    by_rest: Dict[tuple, Dict[bool, str]] = {}
+    for q in rets:
+        flag = q.holds(KEY)
+        g_, b_ = n_flips(q.value)
+        det.append(f"{g_} flipud under {KEY.split('[')[-1][2:-2]}={flag}")
+        if b_ or flag is None or g_ != (1 if flag else 0):
+            ok = False
+            continue
+        import copy as _copy
+        rest = tuple(sorted(c for c in q.conds if c[0] != KEY))
+        by_rest.setdefault(rest, {})[flag] = paths.ptext(Unflip().visit(_copy.deepcopy(q.value)))
+    for rest, d in by_rest.items():
+        if set(d) != {True, False} or d[True] != d[False]:
+            ok = False
+            det.append(f"flipped / unflipped values differ: {d.get(True, '-')[:60]} / {d.get(False, '-')[:60]}")
+    det = "; ".join(sorted(set(det)))[:300]
+    ctx.ob(rule, key, ok if PS is not None else None, where=f, node=flips[0] if flips else f.node, construct=det,
            message="the function must apply np.flipud exactly once, only under general.fits.flip_for_ds9, and otherwise return the same value unflipped")
     return 1 if ok else None
 
@@ -115,8 +132,7 @@ def run(ctx):
         wt = [c for c in f.calls() if isinstance(c.func, ast.Attribute) and c.func.attr == "writeto"]
         ok = len(cs) == 1 and len(wt) == 1
         if ok:
-            tgt = [n.targets[0].id for n in f.body_nodes() if isinstance(n, ast.Assign) and n.value is cs[0] and isinstance(n.targets[0], ast.Name)]
-            ok = len(tgt) == 1 and norm_text(wt[0].func.value) == tgt[0]
+            ok = wire.is_value_of(f, wt[0].func.value, cs[0])   # the HDU written is the one just produced, directly or through a local
             b = {k: norm_text(v) for k, v in wire.kw(cs[0], p.func(hk)).items()}
             ok = ok and b.get("header_dict") == "header_dict" and (b.get("array_2d") == "array_2d" or b.get("array_1d") == "array_1d")
         ctx.ob("C16.flip-unit", wk + ":via-hdu", ok, where=f, node=cs[0] if cs else f.node, construct=norm_text(cs[0])[:100] if cs else "", message="the file writer must write exactly the HDU produced by hdu_for_output_from for its data and header")
@@ -154,18 +170,20 @@ def run(ctx):
     allowed_hdu = {f"{A2}:hdu_for_output_from", f"{A1}:hdu_for_output_from"}
     allowed_wt = {f"{A2}:numpy_array_2d_to_fits", f"{A1}:numpy_array_1d_to_fits"}
     n_h = n_w = 0
+    hdu_funcs = set()
     for f in p.all_functions():
         for c in f.calls():
             t = norm_text(c.func)
             if t.endswith("PrimaryHDU") or t.endswith("ImageHDU"):
                 n_h += 1
+                hdu_funcs.add(f.key)
                 ctx.ob("C16.sinks", f"{f.key}:PrimaryHDU", f.key in allowed_hdu, where=f, node=c, construct=norm_text(c)[:100], message="an HDU is created outside the HDU writer utils (the DS9 flip would be bypassed)")
             if isinstance(c.func, ast.Attribute) and c.func.attr == "writeto":
                 n_w += 1
                 ctx.ob("C16.sinks", f"{f.key}:writeto", f.key in allowed_wt, where=f, node=c, construct=norm_text(c)[:100], message="a FITS file is written outside the file writer utils")
                 ow = wire.kw(c).get("overwrite")
                 ctx.ob("C16.overwrite", f"{f.key}:writeto-overwrite", ow is None or (isinstance(ow, ast.Constant) and ow.value is False), where=f, node=c, construct=norm_text(c)[:100], message="writeto must not overwrite by itself: an existing path must fail unless overwrite was requested")
-    ctx.require_count("C16.sinks", "PrimaryHDU constructions", n_h, 3)
+    ctx.require_count("C16.sinks", "functions constructing a PrimaryHDU", len(hdu_funcs), 2)
     ctx.require_count("C16.sinks", "writeto calls", n_w, 2)
     # ---- overwrite / directories
     for wk in allowed_wt:
@@ -195,7 +213,7 @@ def run(ctx):
             ctx.ob("C16.overwrite", wk + ":makedirs", guarded and (exist_ok or exists_guard), where=f, node=c, construct=f"{norm_text(c)} under {[(norm_text(i.test), t) for i, t in br]}",
                    message="os.makedirs must be reached only for a non-empty directory component (a bare file name gives '') and only when the directory is missing")
         # the directory component is the head of os.path.split / dirname of the path
-        src = [norm_text(n.value) for n in f.body_nodes() if isinstance(n, ast.Assign) and isinstance(n.targets[0], ast.Name) and mk and n.targets[0].id == norm_text(mk[0].args[0])]
+        src = [norm_text(wire.inline_locals(f, mk[0].args[0], unpack=True))] if mk and mk[0].args else []   # name-free: `d = os.path.split(p)[0]` and `d, _ = os.path.split(p)` alike
         ctx.ob("C16.overwrite", wk + ":dir", bool(mk) and src in (["os.path.split(file_path)[0]"], ["os.path.dirname(file_path)"]), where=f, node=mk[0] if mk else f.node, construct=str(src), message="missing output directories must be created from the directory component of file_path")
     header_rule(ctx, p)
     values_rule(ctx, p)
